@@ -69,6 +69,8 @@ def _case(rng, cls=None, layout=None, sched=None, mode=None, solver=None):
     if cls in CROSS or cls in ("MCARotator", "CPCCARotator"):
         # fractional whitening without PCA needs a well-conditioned covariance: n well above p_x + p_y
         c["n"] = max(c["n"], c["fa"] * c["fb"] + 6 + 8)
+    if layout == "elementwise" and cls in ("CCA", "CPCCA", "RDA", "CPCCARotator"):
+        c["layout"] = layout = "both"  # one-element chunks need tiny arrays, whitening needs many samples
     if layout == "elementwise":
         c.update(n=8, fa=2, fb=2, k=2)
     if cls == "SparsePCA" and layout not in ("single", "features"):
@@ -106,7 +108,10 @@ def _data(case):
     r = min(n - 2, p)
     s = 0.6 ** np.arange(r)
     M, _, _ = gen.low_rank(n, p, s, rng)
-    X = xu.make_da(M + rng.standard_normal(p), (fa, fb), ("lat", "lon"))
+    # every sixth case: features with a large offset (|mean|/std ~ 1e5) -- a one-pass variance
+    # sqrt(E[x^2]-E[x]^2) on the chunked path would lose ~1e-6 there, the two-pass in-memory path does not
+    off_scale = 1e5 if case["dseed"] % 6 == 0 else 1.0
+    X = xu.make_da(M + rng.standard_normal(p) * off_scale * np.abs(M).std(), (fa, fb), ("lat", "lon"))
     q = max(3, min(6, p))
     s2 = 0.55 ** np.arange(min(n - 2, q))
     M2, _, _ = gen.low_rank(n, q, s2, rng)
@@ -136,6 +141,8 @@ def _kw(case, compute):
     base = {"EOFRotator": "EOF", "MCARotator": "MCA", "CPCCARotator": "CPCCA"}.get(cls, cls)
     k = case["k"]
     kw = dict(n_modes=k, solver=case["solver"], random_state=7, compute=compute, check_nans=case["check_nans"] if compute else False)
+    if base in SINGLES and case["dseed"] % 3 == 0:
+        kw.update(standardize=True)
     if base == "ExtendedEOF":
         kw.update(tau=1, embedding=2)
     if base == "OPA":
